@@ -1,8 +1,59 @@
 #!/bin/sh
 # usage: check.sh <property id> [quick|thorough]
-# Analyses /repo's current working tree (nothing under /repo is executed).
+# Analyses /repo's current working tree (nothing under /repo is executed or modified).
+#
+# quick    : the property's rules on the default build configuration.
+# thorough : the same rules with inner loops unrolled once more, repeated under a second build
+#            configuration (linux/386), followed by the positive controls: every recorded breaking
+#            change for the property (hand-made mutants under selftest/mutants and confirmed seeds
+#            under seeded/) is applied to a scratch copy of /repo and the rules are run on the copy;
+#            the number of controls that fired is added to the evidence. Controls never change the
+#            verdict on /repo (a control whose patch does not apply to the current tree is skipped).
 cd "$(dirname "$0")" || exit 2
+V=$(pwd)
+id="$1"; tier="${2:-${VERIF_TIER:-quick}}"
+REPO="${VERIF_REPO:-/repo}"
 if [ ! -x bin/gunyucheck ] || [ -n "$(find checker -name '*.go' -newer bin/gunyucheck -not -path '*/vendor/*' | head -1)" ]; then
   ./setup.sh >&2 || { echo "cannot build checker"; exit 2; }
 fi
-exec bin/gunyucheck -property "$1" -tier "${2:-${VERIF_TIER:-quick}}" -verif "$(pwd)" -repo "${VERIF_REPO:-/repo}"
+bin/gunyucheck -property "$id" -tier "$tier" -verif "$V" -repo "$REPO"
+rc=$?
+[ "$tier" = thorough ] || exit $rc
+
+# ---- positive controls (report only)
+lc=$(echo "$id" | tr A-Z a-z)
+scratch=$(mktemp -d /tmp/gunyu_ctl.XXXXXX) || exit $rc
+trap 'rm -rf "$scratch"' EXIT INT TERM
+mkdir -p "$scratch/repo" "$scratch/verif"
+rsync -a --exclude .git "$REPO/" "$scratch/repo/" || exit $rc
+cp "$V/known_findings.json" "$scratch/verif/" 2>/dev/null
+total=0; fired=0; skipped=0; missed=""
+list=$(ls "$V"/selftest/mutants/${lc}_*.diff 2>/dev/null)
+for m in "$V"/seeded/*/meta.json; do
+  [ -f "$m" ] || continue
+  if python3 -c "import json,sys; sys.exit(0 if '$id' in json.load(open('$m')).get('detected_by',[]) else 1)"; then
+    list="$list $(dirname "$m")/patch.diff"
+  fi
+done
+for p in $list; do
+  [ -f "$p" ] || continue
+  if ! patch -p1 -s -f -d "$scratch/repo" --dry-run < "$p" >/dev/null 2>&1; then
+    skipped=$((skipped+1)); continue
+  fi
+  patch -p1 -s -f -d "$scratch/repo" < "$p" >/dev/null 2>&1
+  total=$((total+1))
+  if bin/gunyucheck -property "$id" -tier quick -verif "$scratch/verif" -repo "$scratch/repo" 2>/dev/null | grep -q "^VIOLATION property=$id"; then
+    fired=$((fired+1))
+  else
+    missed="$missed $(basename "$(dirname "$p")")/$(basename "$p")"
+  fi
+  patch -p1 -s -f -R -d "$scratch/repo" < "$p" >/dev/null 2>&1
+  find "$scratch/repo" -name '*.orig' -o -name '*.rej' | xargs rm -f 2>/dev/null
+done
+echo "positive controls: $fired of $total recorded breaking changes reported ($skipped not applicable to this tree)${missed:+; not reported:$missed}"
+if command -v jq >/dev/null 2>&1 && [ -f "$V/evidence/$id.json" ]; then
+  jq --argjson t "$total" --argjson f "$fired" --argjson s "$skipped" --arg m "$missed" \
+     '.coverage.positive_controls = {applied: $t, reported: $f, skipped_not_applicable: $s, not_reported: $m, note: "each control is a recorded breaking change (selftest/mutants, seeded/) applied to a scratch copy of /repo; report only, never part of the verdict"}' \
+     "$V/evidence/$id.json" > "$scratch/ev.json" && cp "$scratch/ev.json" "$V/evidence/$id.json"
+fi
+exit $rc
